@@ -33,7 +33,11 @@ theorem dl_scale (L : DLat) (X : Rows) (m : Nat) (order : List GenRec → List G
   exact h
 
 /-- `DL * c` and `DL / c` leave the original unchanged (first component = `self` after the call),
-    and the result's lattice is the original's (only the decisions are scaled). -/
+    and the result's lattice is the original's (only the decisions are scaled).
+    The model is pure, so object identity does not exist in it: that the returned Python object is a fresh copy
+    (not `self`, no shared `_decisions` / lattice / generator dictionary, also for the neutral constants `1`, `1.0`, `-1`)
+    and that later in-place `*=` / `/=` on the result leave the original's decisions and predictions untouched is
+    checked by the harness on every case (two-step histories `p = DL*c; p *= k1; p /= k2`, `q = DL/c; q /= k2; q *= k1`). -/
 theorem dl_scale_pure (L : DLat) (c : Rat) :
     (mul L c).1 = L ∧ (mul L c).2.lat = L.lat ∧ (∀ r, truediv L c = some r → r.1 = L ∧ r.2.lat = L.lat) := by
   refine ⟨rfl, rfl, ?_⟩
